@@ -10,7 +10,7 @@ import sys
 import re
 import traceback
 
-ALPHABET = ["a", "f", "x", "#", "@", "*", ".", "/", "!", "$", "(", ")", ">", ":", ",", "=", "~", " ", " as ", "'", "1", "T"]
+ALPHABET = ["a", "f", "x", "#", "@", "*", ".", "/", "!", "$", "(", ")", ">", ":", ",", "=", "~", " ", " as ", "'", "1", "T", "_", "-"]
 
 
 def _classify(fn, s):
@@ -89,18 +89,20 @@ def native_checks(tier, seed):
     def alarm(*a):
         raise Timeout()
 
-    signal.signal(signal.SIGALRM, alarm)
+    # "terminates" is judged on the CPU time of this process (ITIMER_VIRTUAL), not on the wall clock: a loaded machine must not turn a
+    # slow run into a verdict
+    signal.signal(signal.SIGVTALRM, alarm)
     cats = {}
     hung = []
     for s in strings:
         for name, fn in (("parse", sel.parse), ("select", lambda z: sel.select(z, env=env))):
-            signal.setitimer(signal.ITIMER_REAL, 2.0)
+            signal.setitimer(signal.ITIMER_VIRTUAL, 5.0)
             try:
                 c = _classify(fn, s)
             except Timeout:
                 c = "does-not-terminate"
             finally:
-                signal.setitimer(signal.ITIMER_REAL, 0)
+                signal.setitimer(signal.ITIMER_VIRTUAL, 0)
             if c:
                 cats.setdefault(f"{name}:{c}", []).append(s)
     known = []
